@@ -235,7 +235,7 @@ func GenMW(t *rapid.T) MWCase {
 
 var (
 	apiBases = []string{"", "/", "/api", "/api/v1", "/api/", "/docs"}
-	opPool   = []string{"/docs", "/docs/x", "/swagger.json", "/swagger.jsonx", "/d", "/docs.json/y", "/swagger.json/z", "/doc", "/x", "/docsx", "/ui/docs/more", "/dir/doc.json", "/dir/sub/doc.jsonl"}
+	opPool   = []string{"/docs", "/docs/x", "/swagger.json", "/swagger.jsonx", "/d", "/docs.json/y", "/swagger.json/z", "/doc", "/x", "/docsx", "/ui/docs/more", "/dir/doc.json", "/dir/sub/doc.jsonl", "/docs/oauth2-callback", "/oauth2-callback"}
 	// spec locations for the API handler: well-formed references only
 	apiSpecURLs = []string{"", "", "/swagger.json", "/dir/sub/doc.json", "https://h.test/dir/doc.json", "http://h.test:8080/spec/openapi.json?x=1", "/api/swagger.json",
 		"/api/docs.json", "/api/v1/docs/swagger.json", `https://h.test/dir/doc.json?x=1&y=<2>`, `/zqS"b.json`, `/zqS'y`, `/zqS<b>.json`, "/a//b.json", "/a/../b.json",
@@ -275,7 +275,7 @@ func GenAPI(t *rapid.T) APICase {
 		c.HasUIBase = true
 		c.UIBase = rapid.SampledFrom([]string{"", "/", "/ui", "/api", "/api/", "/docs/v1"}).Draw(t, "uibase")
 	}
-	c.UIPath = rapid.SampledFrom([]string{"", "", "docs", "ui/docs", "/docs", "swagger.json", "d.x/", "../docs", "redoc"}).Draw(t, "uipath")
+	c.UIPath = rapid.SampledFrom([]string{"", "", "docs", "ui/docs", "/docs", "swagger.json", "d.x/", "../docs", "redoc", "/", "//", "oauth"}).Draw(t, "uipath")
 	c.SpecURL = rapid.SampledFrom(apiSpecURLs).Draw(t, "specurl")
 	if genSpecDirClass && rapid.IntRange(0, 9).Draw(t, "specdir") == 0 {
 		c.SpecURL = rapid.SampledFrom(specDirURLs).Draw(t, "specdirurl")
